@@ -399,6 +399,12 @@ def sugar_cases():
                 [('I', 'TRUE', [])] * 2 + [('I', 'FALSE', [])] + [('I', 'TRUE', [])] * 2))
     out.append(('!= inner [ v ] { push v } != outer [ w ] { !inner [ w ] dup } !outer [ x07 ]', [P(b'\x07'), ('I', 'DUP', [])]))
     out.append(('true != late [ ] { false } !late [ ]', [('I', 'TRUE', []), ('I', 'FALSE', [])]))
+    # all parameters are replaced at once: an argument spelled like another parameter's name is not substituted again
+    for names in (('d1', 'd2'), ('d1', 'd2', 'd3'), ('x0a', 'x0b'), ('true', 'false')):
+        for args in itertools.product(names, repeat=len(names)):
+            tok = lambda a: [('PUSH', ('d', int(a[1:])))] if a[0] == 'd' else [P(bytes.fromhex(a[1:]))] if a[0] == 'x' else [('I', a.upper(), [])]
+            body = ' '.join(('push ' + nm) if nm[0] in 'dx' else nm for nm in names)
+            out.append(('!= mp [ %s ] { %s } !mp [ %s ]' % (' '.join(names), body, ' '.join(args)), [t for a in args for t in tok(a)]))
     # commented-out definitions / blocks do not exist
     out.append(('!= m7 [ ] { true } # old: != m7 [ ] { false } # !m7 [ ]', [('I', 'TRUE', [])]))
     out.append(('# != m7 [ ] { false } # != m7 [ ] { true } !m7 [ ]', [('I', 'TRUE', [])]))
@@ -527,6 +533,27 @@ def history_case(ctx, case):
                           f'after compiling {first!r}, the source {second!r} compiled to {got.hex()}')
 
 
+def def_handle_case(ctx, n):
+    """DEF with every handle 0..255 in every documented spelling, alone and inside an enclosing block (whose length field
+    counts the one handle byte)"""
+    cnt = 0
+    for sp in (str(n), 'd%d' % n, 'x%02x' % n):
+        for form, prog in (('def %s { true }', [('DEF', ('d', n), [('I', 'TRUE', [])])]),
+                           ('def %s true end_def', [('DEF', ('d', n), [('I', 'TRUE', [])])]),
+                           ('true if { def %s { true false } }', [('I', 'TRUE', []), ('IF', [('DEF', ('d', n), [('I', 'TRUE', []), ('I', 'FALSE', [])])])]),
+                           ('try { def %s { } } except { true } call x' + '%02x' % n,
+                            [('TRY', [('DEF', ('d', n), [])], [('I', 'TRUE', [])]), ('I', 'CALL', [('x', bytes([n]))])])):
+            cnt += 1
+            src = form % sp
+            expect = refasm.encode_prog(prog)
+            ctx.state((src,))
+            got, err = judge(ctx, prog, src, {'family': 'DEF handles', 'spelling': sp[0] if not sp[0].isdigit() else 'plain'}, expect)
+            if err is not None:
+                ctx.violation({'family': 'DEF handles', 'clause': 'a documented spelling of an accepted statement is rejected'},
+                              f'source {src!r}: {err!r}')
+    ctx.evaluations += cnt - 1
+
+
 def blocks(tier, seed):
     q = tier == 'quick'
     plain = [nm for nm in OPNAMES if refasm.kind(nm) != 'block']
@@ -542,6 +569,7 @@ def blocks(tier, seed):
               'every control program <= %d nodes x all terminator/hoist combinations x comments at every gap x whitespace' % nfull, nshards=64),
         Block('B_nesting_chains', lambda s, n: itertools.islice(spaces.chain_progs(3 if q else 4), s, None, n), ctrl_case,
               'nesting chains x styles', nshards=32),
+        Block('A_def_handles', list(range(256)), def_handle_case, 'DEF 0..255 x spellings {n, dn, xhh} x {braces, END_DEF, inside IF, inside TRY + CALL}', nshards=32),
         Block('C_variables_macros_comptime', sugar_cases(), sugar_case, 'syntactic sugar forms', nshards=8),
         Block('D_unencodable_sources', bad_sources(), bad_case, 'operands one past their range, unknown names, unterminated constructs', nshards=16),
         Block('compile_histories', list(HISTORIES), history_case,
